@@ -1,6 +1,6 @@
 // Harness helpers: hashing, selection, grid family, C10 invariants, C14
 // snapshots, C03 reference model, names, probes.
-#include "world.h"
+#include "ops_util.h"
 
 #include <algorithm>
 #include <sstream>
@@ -45,6 +45,17 @@ static const char *kProbeNames[PR_NKINDS] = {
     "eqgrid_distinct", "idx_in", "idx_edge", "idx_huge", "idx_wrap",
     "last_owner_task", "msg_sent", "msg_recv", "c03_compared", "sweep_points",
     "factor_inside", "twin_compared", "pin_taken", "pin_checked"};
+const char *entry_name(int e) {
+  static const char *n[E_N] = {"operator+", "operator-", "operator*", "operator+=", "operator-=", "linearCombination",
+                               "BilinearForm", "integrate<n>", "apply(spline-factor operator)", "LinearForm(spline-factor operator)",
+                               "BilinearForm(spline-factor operator)", "apply(held spline operator)", "BSplineGenerator(knots, grid)"};
+  return e >= 0 && e < E_N ? n[e] : "?";
+}
+const char *diff_name(int d) {
+  static const char *n[D_N] = {"equal_points_distinct_object", "same_object", "one_point_moved", "extra_point_front",
+                               "extra_point_back", "extra_point_inside", "other"};
+  return d >= 0 && d < D_N ? n[d] : "?";
+}
 const char *probe_name(int p) {
   return p >= 0 && p < PR_NKINDS ? kProbeNames[p] : "?";
 }
